@@ -7,8 +7,7 @@ from sa.idioms import (reach_under, path_under, ordering_assumption, combine,
                        attr_truth, edges_requiring, infeasible_edges)
 from sa.project import dotted
 
-EXPLANATION = (
-    "Escalation shape of Watcher.kill_process decided on its CFG: R1 the stop-"
+EXPLANATION = (    "Escalation shape of Watcher.kill_process decided on its CFG: R1 the stop-"
     "signal send dominates the SIGKILL send, which is reachable only through "
     "the wait loop; R2 the loop/escalation guards as orderings of waited vs "
     "graceful_timeout (loop only under <, SIGKILL only under >=, SIGKILL "
@@ -20,6 +19,7 @@ EXPLANATION = (
     "stop_children the stop signal goes through the children-iterating sender "
     "and the SIGKILL is recursive; R6 every termination cause goes through "
     "kill_process and no other watcher code sends a terminating signal. "
+    "R7 (shared with C04 R2) a worker is untracked only after its termination routine reported completion or it is dead, because an untracked pid is never signalled. "
     "Decides these necessary conditions, not wall-clock accuracy.")
 ASSUMPTIONS = ["posix platform (hasattr(signal,'SIGKILL') true)"]
 
